@@ -166,6 +166,11 @@ def main(tier):
                            "program": next(p for p in allprogs if p["id"] == c["id"]),
                            "summary": "%s for %s: event %s" % (res.violated, c["id"], c["events"][l - 1] if l else c)})
     if not run.violations:
+        # unpacking SECRET bits enforces the range of the packed type: captured with checks off, unsatisfiable for every bit pattern
+        # at or above the modulus (moduli that are, are one less than, and are far from a power of two)
+        for cfg in ([{"P": 67, "bitlength": 3, "resolution": 1}]):
+            uprogs, uinsts = c03_check.build_insts(run, cfg, tier, select=lambda pid: "/unpack/" in pid)
+            common.validate_insts(run, "Soundness", uinsts, cfg="Soundness_C03.cfg", label="range of unpacked secrets enforced in-circuit", programs=uprogs, chunk=20, parallel=8, props=["C03", "C16"])
         # the width argument is the width enforced in-circuit: free-operand search on to_bits(n) / assert_positive(bits=n)
         for cfg in ([{"P": 13, "bitlength": 2, "resolution": 1}] if tier == "quick" else [{"P": 13, "bitlength": 2, "resolution": 1}, {"P": 37, "bitlength": 3, "resolution": 1}]):
             progs, insts = c03_check.free_insts(run, cfg, tier)
